@@ -226,8 +226,23 @@ func (g *macGen) macro(idx int, earlier []*S) *S {
 	if g.pick(2, "sets") == 0 {
 		g.stats["body-sets"] = true
 		name := "z"
-		if np > 0 && g.pick(2, "setparam") == 0 {
+		switch sp := g.pick(3, "setwhat"); {
+		case sp == 0 && np > 0:
 			name = m.Params[0].Name
+		case sp == 1:
+			// a name the caller holds and that is not a parameter here: the assignment creates a
+			// variable of the macro and leaves the caller's alone
+			for _, cand := range []string{"p", "q", "r"} {
+				isParam := false
+				for _, pp := range m.Params {
+					isParam = isParam || pp.Name == cand
+				}
+				if !isParam {
+					name = cand
+					g.stats["body-sets-a-caller-variable"] = true
+					break
+				}
+			}
 		}
 		m.Body = append(m.Body, SetS(name, Int(int64(700+idx))), Text(" set:"), Print(Var(name)))
 	}
